@@ -31,6 +31,9 @@ def build_cases(tier, seed):
         if i % 6 == 0:
             # a co-simulation client that hands stations and bases back with other coordinates (to be refused)
             opts = dict(opts, cosim_ops={"every": 4, "kinds": ["try_move"]})
+        if i % 12 == 4:
+            # a client that writes older copies of vehicles back (with one more membership)
+            opts = dict(opts, cosim_ops={"every": 5, "kinds": ["stale_write_back"]})
         cases.append(trace_case("C07", i, s, prof, ctrl, steps, ["C07"], opts=opts))
     cases += systematic_cases("C07", tier, seed)
     if tier == "thorough":
